@@ -390,7 +390,9 @@ class ADD(BinaryOp):
         result = (left + right + carry) & 0xFFFF
 
         vm.flag_carry = result < (left + right + carry)
-        vm.flag_overflow = from_u16(result) != from_u16(left) + from_u16(right)
+        vm.flag_overflow = (
+            from_u16(result) != from_u16(left) + from_u16(right) + carry
+        )
 
         return result
 
